@@ -8,6 +8,7 @@ import subprocess
 ROOT = os.path.dirname(os.path.dirname(os.path.abspath(__file__)))
 # subject prefix of the fix: commit -> (properties, what failed before the repair, how the checks showed it)
 FIXED = {
+    'fix: land Seek and Find on the node the skiplist descent saw': (['C18', 'C05'], 'lock-free Seek/Find loaded the level-0 successor a second time after the descent: a concurrent Insert of a smaller key made Seek land BEFORE its target and Find report an existing key as absent', 'TLC on KevoMem (ReaderSeesAtLeastPrefix violated, 3 inserts), then reproduced on the real code by parking the reader at sl.seek.descended / sl.find.descended'),
     'fix: SSTable iterator Next on a fresh iterator deadlocked': (['C11', 'C07'], 'the first Next() on an iterator from Reader.NewIterator() never returned (re-locks its own mutex)', 'C11 replay: 294 generated cursor programs that start with Next hang'),
     'fix: validate the stored bloom filter header': (['C11'], 'one altered byte in a bloom filter size field made OpenReader die with an out-of-memory fatal error / makeslice panic instead of an error', 'C11 corruption sweep'),
     'fix: an entry with the empty key made a whole SSTable unreadable': (['C11', 'C01'], 'block.Iterator.Valid() demanded a non-empty key: a table holding the empty key iterated 0 entries and found nothing', 'C11 replay, byte shape empty-first-key'),
